@@ -3,7 +3,7 @@
 From Coq Require Import List NArith ZArith Bool String Ascii Lia.
 From Cfg Require Import Model.RStr Model.LuaNum Model.Redis Model.RedisScripts Model.MapApi23 Model.MemMap23
                         Model.RedisMapBroker Model.RedisMapScripts
-                        Proofs.C18Lib Proofs.C18Redis Proofs.C23Redis Proofs.C23Lib Proofs.C23Add Proofs.C23Read.
+                        Proofs.C18Lib Proofs.C18Redis Proofs.C23Redis Proofs.C23Lib Proofs.C23Add Proofs.C23Read Proofs.C23Add2.
 From Cfg Require Proofs.C18Stream Proofs.C18StreamP Proofs.C18StreamH Proofs.C18StreamQ.
 Import ListNotations.
 Open Scope string_scope.
@@ -15,9 +15,15 @@ Definition cfg_ok (cf : mcfg) : bool :=
 
 Definition nonce_ok (e : string) : bool := negb (has_char ":" e).
 
-Definition popts_ok (o : mpopts) : bool :=
-  (String.eqb (mp_idem o) "" && (mp_ver o =? 0)%N && String.eqb (mp_mode o) ""
-   && match mp_exp o with None => true | Some _ => false end && (0 <=? mp_score o)%Z)%bool.
+Definition exp_okb (exp : option (N * string)) : bool :=
+  match exp with Some (eo, ee) => (negb (String.eqb ee "") && (eo <? 9007199254740992)%N)%bool | None => true end.
+
+(* an unkeyed Publish carries neither KeyMode nor ExpectedPosition; a keyed one may carry any KeyMode and an
+   ExpectedPosition with a non-empty epoch (finding map-cas-empty-epoch) and an offset below 2^53 *)
+Definition popts_ok (key : string) (o : mpopts) : bool :=
+  (String.eqb (mp_idem o) "" && (mp_ver o =? 0)%N && (0 <=? mp_score o)%Z &&
+   (if String.eqb key "" then String.eqb (mp_mode o) "" && match mp_exp o with None => true | Some _ => false end
+    else exp_okb (mp_exp o)))%bool.
 
 Definition ropts_ok (o : mropts) : bool :=
   (String.eqb (mr_idem o) "" && match mr_exp o with None => true | Some _ => false end)%bool.
@@ -30,7 +36,7 @@ Definition since_okb (top : N) (since : option (N * string)) (reverse : bool) : 
 
 Definition op_ok (m : mmstate) (o : mop) : bool :=
   match o with
-  | MPublish ch key po nonce now => (popts_ok po && nonce_ok nonce)%bool
+  | MPublish ch key po nonce now => (popts_ok key po && nonce_ok nonce)%bool
   | MRemove ch key ro nonce now =>
       (ropts_ok ro && negb (String.eqb key "") && match sfind ch (mm_chans m) with Some _ => true | None => false end)%bool
   | MReadStream ch since limit reverse nr nm =>
@@ -185,45 +191,67 @@ Proof. intros H. replace (List.length l - n)%nat with O by lia. reflexivity. Qed
 Definition state_after (key : string) (e : mentry) (state : list (string * mentry)) : list (string * mentry) :=
   if String.eqb key "" then state else sput key e state.
 
-Lemma hub_add_core cf m ch key o nonce :
-  has_stream cf = true -> popts_ok o = true ->
+Lemma km_decision_mem mode (cur : option mentry) :
+  match cur with
+  | Some _ => if String.eqb mode "if_new" then Some "key_exists" else None
+  | None => if String.eqb mode "if_exists" then Some "key_not_found" else None
+  end = km_decision mode (is_some cur).
+Proof.
+  unfold km_decision. destruct cur; cbn [is_some negb]; rewrite ?andb_true_r, ?andb_false_r;
+    destruct (String.eqb mode "") eqn:E; try (apply String.eqb_eq in E; subst mode; reflexivity);
+    destruct (String.eqb mode "if_new"); destruct (String.eqb mode "if_exists"); reflexivity.
+Qed.
+
+Lemma hub_add_gen cf m ch key o nonce :
+  has_stream cf = true -> mp_ver o = 0%N ->
   let c0 := c0_of m ch nonce in
   (Z.of_nat (List.length (ch_items c0)) < mc_size cf)%Z ->
-  exists m' ver vep,
-    hub_add cf m ch key o nonce = (m', MUpd (ch_top c0 + 1) (ch_epoch c0) false "" None) /\
-    (forall ch', sfind ch' (mm_chans m') =
-       if String.eqb ch' ch
-       then Some (mkMCh (ch_top c0 + 1) (ch_epoch c0) (ch_items c0 ++ [((ch_top c0 + 1)%N, key, mp_data o, false)])
-                        (state_after key (mkME (ch_top c0 + 1) (mp_data o) (mp_score o) ver vep) (ch_state c0)))
-       else sfind ch' (mm_chans m)).
+  let cur := sfind key (ch_state c0) in
+  let keyed := negb (String.eqb key "") in
+  exists m1,
+    (forall ch', sfind ch' (mm_chans m1) = if String.eqb ch' ch then Some c0 else sfind ch' (mm_chans m)) /\
+    match (if keyed then km_decision (mp_mode o) (is_some cur) else None) with
+    | Some r => hub_add cf m ch key o nonce = (m1, MUpd (ch_top c0) (ch_epoch c0) true r None)
+    | None =>
+        match (if keyed then cas_dec (ch_epoch c0) (mp_exp o) cur else None) with
+        | Some cp => hub_add cf m ch key o nonce = (m1, MUpd (ch_top c0) (ch_epoch c0) true "position_mismatch" cp)
+        | None =>
+            exists m' ver vep,
+              hub_add cf m ch key o nonce = (m', MUpd (ch_top c0 + 1) (ch_epoch c0) false "" None) /\
+              (forall ch', sfind ch' (mm_chans m') =
+                 if String.eqb ch' ch
+                 then Some (mkMCh (ch_top c0 + 1) (ch_epoch c0) (ch_items c0 ++ [((ch_top c0 + 1)%N, key, mp_data o, false)])
+                                  (state_after key (mkME (ch_top c0 + 1) (mp_data o) (mp_score o) ver vep) (ch_state c0)))
+                 else sfind ch' (mm_chans m))
+        end
+    end.
 Proof.
-  intros Hhs Hp c0 Hsz. unfold popts_ok in Hp.
-  apply andb_true_iff in Hp as [Hp Hsc]. apply andb_true_iff in Hp as [Hp Hexp]. apply andb_true_iff in Hp as [Hp Hmode].
-  apply andb_true_iff in Hp as [Hidem Hver]. apply N.eqb_eq in Hver. apply String.eqb_eq in Hmode.
-  destruct (mp_exp o) eqn:Eexp; [discriminate|].
+  intros Hhs Hver c0 Hsz cur keyed.
   unfold hub_add.
   set (m1 := match sfind ch (mm_chans m) with Some c => (m, c) | None => (set_chan m ch (new_chan nonce), new_chan nonce) end).
   assert (Em1 : m1 = (fst m1, c0)).
   { unfold m1, c0, c0_of. destruct (sfind ch (mm_chans m)); reflexivity. }
+  assert (Hm0 : forall ch', sfind ch' (mm_chans (fst m1)) = if String.eqb ch' ch then Some c0 else sfind ch' (mm_chans m)).
+  { intros ch'. unfold m1, c0, c0_of. destruct (sfind ch (mm_chans m)) as [c|] eqn:E; cbn [fst].
+    - destruct (String.eqb ch' ch) eqn:E'; [apply String.eqb_eq in E'; subst; exact E | reflexivity].
+    - apply sfind_set_chan. }
   assert (Hm1 : forall c2 ch', sfind ch' (mm_chans (set_chan (fst m1) ch c2)) = if String.eqb ch' ch then Some c2 else sfind ch' (mm_chans m)).
-  { intros c2 ch'. rewrite sfind_set_chan. destruct (String.eqb ch' ch) eqn:E; [reflexivity|].
-    unfold m1. destruct (sfind ch (mm_chans m)); cbn [fst]; [reflexivity|]. rewrite sfind_set_chan, E. reflexivity. }
-  rewrite Em1. rewrite Hhs, Hver, Hmode, Eexp. cbn [andb N.ltb N.compare]. rewrite andb_false_r. cbn iota.
-  assert (Hmodes : (if negb (String.eqb key "") then
-                      match sfind key (ch_state c0) with
-                      | Some _ => if String.eqb "" "if_new" then Some "key_exists" else None
-                      | None => if String.eqb "" "if_exists" then Some "key_not_found" else None
-                      end else None) = None).
-  { destruct (negb (String.eqb key "")); [|reflexivity]. destruct (sfind key (ch_state c0)); reflexivity. }
-  rewrite Hmodes.
-  assert (Hcas : (if negb (String.eqb key "") then cas_check (snd (chan_pos c0)) None (sfind key (ch_state c0)) else None) = None).
-  { destruct (negb (String.eqb key "")); reflexivity. }
-  rewrite Hcas. unfold stream_add. cbv beta iota zeta. cbn [ch_items ch_top ch_epoch ch_state fst snd].
+  { intros c2 ch'. rewrite sfind_set_chan. destruct (String.eqb ch' ch) eqn:E; [reflexivity|]. rewrite Hm0, E. reflexivity. }
+  exists (fst m1). split; [exact Hm0|].
+  rewrite Em1. rewrite Hhs, Hver. cbn [andb N.ltb N.compare]. rewrite andb_false_r. cbn iota.
+  fold cur. fold keyed. rewrite km_decision_mem.
+  destruct (if keyed then km_decision (mp_mode o) (is_some cur) else None) as [r|]; [reflexivity|].
+  assert (Hcas : (if keyed then cas_check (snd (chan_pos c0)) (mp_exp o) cur else None)
+                 = (if keyed then cas_dec (ch_epoch c0) (mp_exp o) cur else None)).
+  { destruct keyed; [|reflexivity]. unfold cas_dec. cbn [chan_pos snd]. destruct (mp_exp o) as [[eo ee]|]; reflexivity. }
+  rewrite Hcas.
+  destruct (if keyed then cas_dec (ch_epoch c0) (mp_exp o) cur else None) as [cp|]; [reflexivity|].
+  unfold stream_add. cbv beta iota zeta. cbn [ch_items ch_top ch_epoch ch_state fst snd].
   rewrite !skipn_fit by (rewrite app_length; cbn [List.length]; lia).
-  unfold state_after.
+  unfold state_after. subst keyed.
   destruct (String.eqb key "") eqn:Ek; cbn [negb].
   - eexists. exists 0%N, "". split; [reflexivity|]. intros ch'. apply Hm1.
-  - cbn [N.eqb]. destruct (sfind key (ch_state c0)) as [e|]; eexists; eexists; eexists; (split; [reflexivity|]); intros ch'; apply Hm1.
+  - cbn [N.eqb]. fold cur. destruct cur as [e|]; eexists; eexists; eexists; (split; [reflexivity|]); intros ch'; apply Hm1.
 Qed.
 
 (* ================= steps ================= *)
@@ -309,9 +337,71 @@ Qed.
 Lemma zdec_nonneg z : (0 <= z)%Z -> zdec z = dec (Z.to_N z).
 Proof. intros H. rewrite <- zdec_of_N. rewrite Z2N.id by assumption. reflexivity. Qed.
 
+(* Go-side parse of the suppressed replies *)
+Lemma km_decision_reason km ex r : km_decision km ex = Some r -> r = "key_exists" \/ r = "key_not_found".
+Proof.
+  unfold km_decision. destruct (String.eqb km ""); [discriminate|].
+  destruct (String.eqb km "if_new" && ex)%bool; [intros X; injection X as <-; left; reflexivity|].
+  destruct (String.eqb km "if_exists" && negb ex)%bool; [intros X; injection X as <-; right; reflexivity | discriminate].
+Qed.
+
+Lemma parse_add_supp top epoch r : (top < 18446744073709551616)%N -> r = "key_exists" \/ r = "key_not_found" ->
+  parse_add_result (RArr [RInt (Z.of_N top); RBulk epoch; RBulk r]) = MUpd top epoch true r None.
+Proof.
+  intros H Hr. unfold parse_add_result. cbn [as_arr List.length Nat.ltb Nat.leb nth as_u64 to_str].
+  rewrite Z.mod_small by lia. rewrite N2Z.id. destruct Hr as [-> | ->]; reflexivity.
+Qed.
+
+Lemma cas_dec_cp epoch exp cur cp : cas_dec epoch exp cur = Some cp ->
+  cp = match cur with Some e => Some (me_off e, me_data e) | None => None end.
+Proof.
+  unfold cas_dec, cas_check. destruct exp as [[eo ee]|]; [|discriminate]. destruct cur as [e|].
+  - destruct (negb (me_off e =? eo)%N || negb (String.eqb epoch ee))%bool; [intros X; injection X as <-; reflexivity | discriminate].
+  - intros X. injection X as <-. reflexivity.
+Qed.
+
+Lemma parse_add_mismatch top epoch key (cur : option mentry) :
+  (top < 18446744073709551616)%N -> has_char ":" epoch = false ->
+  match cur with Some e => entry_ok e | None => True end ->
+  parse_add_result (RArr [RInt (Z.of_N top); RBulk epoch; RBulk "position_mismatch"; RBulk (cur_val epoch key cur)])
+  = MUpd top epoch true "position_mismatch" (match cur with Some e => Some (me_off e, me_data e) | None => None end).
+Proof.
+  intros H Hc Hent. unfold parse_add_result. cbn [as_arr List.length Nat.ltb Nat.leb nth as_u64 to_str].
+  rewrite Z.mod_small by lia. rewrite N2Z.id. cbn [String.eqb Ascii.eqb Bool.eqb andb].
+  destruct cur as [e|]; cbn [cur_val]; [|reflexivity].
+  destruct Hent as [H1 H2]. unfold enc_s. cbn [fst snd]. unfold sval at 1. rewrite dec_app_nonempty.
+  fold (sval (me_off e) epoch (pb key (me_data e) false (me_score e))).
+  rewrite parse_sval by (assumption || lia). rewrite unpb_pb by assumption. reflexivity.
+Qed.
+
+(* a publish that was suppressed after the epoch was (possibly) created: only the meta key may have changed *)
+Lemma R_after_suppress U n rs0 m st1 m1 ch nonce h1 v g :
+  keys_ok U -> In ch U -> R U n rs0 m ->
+  let c0 := c0_of m ch nonce in
+  views rs0 ch v -> rv_state v = state_view (ch_epoch c0) (ch_state c0) ->
+  smeta_cond (rv_state v) (rv_smeta v) (ch_epoch c0) ->
+  rv_stream v = strm_view (ch_epoch c0) g (ch_top c0) -> map fst g = ch_items c0 -> g_inv g (ch_top c0) -> chan_inv n c0 ->
+  hview st1 (k_meta ch) (Some h1) -> hash_ok h1 (ch_epoch c0) (ch_top c0) 0 "" -> frame [k_meta ch] rs0 st1 ->
+  (forall ch', sfind ch' (mm_chans m1) = if String.eqb ch' ch then Some c0 else sfind ch' (mm_chans m)) ->
+  R U (n + 1) (clear_outbox st1) m1.
+Proof.
+  intros HK Hin HR0 c0 (Vm & Vs & Vsm & Vst & Ve) Est Hsmc Estr Hg Hgi Hinv Vm1 Hh1 F1 Hch.
+  eapply (R_update U n (n + 1) rs0 m _ m1 ch _ HK Hin HR0); [lia | | exact Hch | |].
+  - eapply frame_trans; [eapply frame_weaken; [|exact F1]; ck | apply frame_clear].
+  - apply (chan_rel_frame st1); [intros; apply getk_clear_outbox|].
+    cbn [chan_rel]. exists h1, g, (rv_smeta v).
+    split; [assumption|]. split; [assumption|]. split; [assumption|]. split; [assumption|].
+    split; [rewrite <- Estr; apply (sview_frame _ _ _ _ _ F1); [notin | exact Vst]|].
+    split; [rewrite <- Est; apply (hview_frame _ _ _ _ _ F1); [notin | exact Vs]|].
+    split; [apply (hview_frame _ _ _ _ _ F1); [notin | exact Vsm]|].
+    split; [rewrite <- Est; exact Hsmc|].
+    destruct F1 as [F1 _]. rewrite F1 by notin. exact Ve.
+  - intros c' E. injection E as <-. apply (chan_inv_mono n); [lia | exact Hinv].
+Qed.
+
 Lemma step_publish U n cf rs m ch key po nonce now_ :
   cfg_ok cf = true -> keys_ok U -> In ch U -> R U n rs m -> (Z.of_N n < mc_size cf)%Z ->
-  popts_ok po = true -> nonce_ok nonce = true ->
+  popts_ok key po = true -> nonce_ok nonce = true ->
   step_goal U n cf rs m (MPublish ch key po nonce now_).
 Proof.
   intros Hcf HK Hin HR Hn Hpo Hno.
@@ -319,39 +409,39 @@ Proof.
   pose proof (R_clear _ _ _ _ HR) as HR0. set (rs0 := clear_outbox rs) in *.
   destruct (pre_state U n rs0 m ch nonce HR0 Hin Hno) as (v & g & Hviews & Hmeta & Est & Hsmc & Estr & Hg & Hgi & Hinv).
   set (c0 := c0_of m ch nonce) in *.
-  destruct Hinv as (Hep & Htop & Hcontig & Hents).
+  pose proof Hinv as (Hep & Htop & Hcontig & Hents).
   pose proof (contigT_length _ _ _ Hcontig) as Hlen.
   assert (Hglen : List.length g = List.length (ch_items c0)) by (rewrite <- Hg; rewrite map_length; reflexivity).
-  destruct (hub_add_core (mkMC 3 0 size sttl 0 false) m ch key po nonce eq_refl Hpo) as (m' & ver & vep & Hadd & Hch).
-  { fold c0. cbn [mc_size]. lia. }
-  fold c0 in Hadd, Hch.
   pose proof Hpo as Hpo'. unfold popts_ok in Hpo'.
-  apply andb_true_iff in Hpo' as [Hpo' Hsc]. apply andb_true_iff in Hpo' as [Hpo' Hexp]. apply andb_true_iff in Hpo' as [Hpo' Hmode].
-  apply andb_true_iff in Hpo' as [Hidem Hver]. apply N.eqb_eq in Hver. apply String.eqb_eq in Hmode, Hidem. apply Z.leb_le in Hsc.
-  destruct (mp_exp po) eqn:Eexp; [discriminate|].
+  apply andb_true_iff in Hpo' as [Hpo' Hkeyopts]. apply andb_true_iff in Hpo' as [Hpo' Hsc].
+  apply andb_true_iff in Hpo' as [Hidem Hver]. apply N.eqb_eq in Hver. apply String.eqb_eq in Hidem. apply Z.leb_le in Hsc.
+  destruct (hub_add_gen (mkMC 3 0 size sttl 0 false) m ch key po nonce eq_refl Hver) as (m1 & Hch1 & Hadd).
+  { fold c0. cbn [mc_size]. lia. }
+  fold c0 in Hch1, Hadd.
   assert (Htb : (ch_top c0 + 1 < BOUND)%N) by (unfold C18Stream.BOUND; lia).
+  assert (Htb64 : (ch_top c0 < 18446744073709551616)%N) by (unfold C18Stream.BOUND in Htb; lia).
   assert (Hszb : (Z.to_N size < 9223372036854775808)%N) by lia.
   pose proof (stream_cond_of v _ g _ _ Estr Hg Hcontig) as Hscond.
   pose proof (wipe_cond_of v _ Hsmc) as Hwc.
-  (* memory side *)
-  assert (Hmem : mm_step (mkMC 3 0 size sttl 0 false) m (MPublish ch key po nonce now_)
-                 = (m', MUpd (ch_top c0 + 1) (ch_epoch c0) false "" None)).
-  { cbn [mm_step]. unfold mm_publish. cbn [is_ephemeral mc_mode N.eqb Pos.eqb andb]. rewrite Hidem. cbn [String.eqb].
-    rewrite Hadd. unfold idem_save. reflexivity. }
   unfold step_goal. unfold rm_step. fold rs0. unfold rm_publish.
   cbn [is_ephemeral mc_mode N.eqb Pos.eqb andb]. cbv iota.
   unfold publish_keys, publish_args. cbn [is_ephemeral has_stream mc_mode mc_keyttl mc_size mc_sttl mc_mttl mc_ordered N.eqb Pos.eqb].
-  rewrite Hidem, Hver, Hmode, Eexp. cbn [String.eqb andb negb Z.ltb Z.compare N.ltb N.compare orb]. unfold idem_expire. cbn [String.eqb].
-  change (millis 0) with "0". rewrite (zdec_nonneg size) by lia. unfold utoa.
+  rewrite Hidem, Hver. cbn [String.eqb andb negb Z.ltb Z.compare N.ltb N.compare orb]. unfold idem_expire. cbn [String.eqb].
+  change (millis 0) with "0". rewrite (zdec_nonneg size) by lia.
   cbn [ms_add map_shallow].
+  cbn [mm_step]. unfold mm_publish. cbn [is_ephemeral mc_mode N.eqb Pos.eqb andb]. rewrite Hidem. cbn [String.eqb].
   destruct key as [|kc key].
   - (* unkeyed *)
-    cbn [String.eqb negb andb]. rewrite core_unkeyed_eq.
+    cbn [String.eqb] in Hkeyopts. apply andb_true_iff in Hkeyopts as [Hmode Hexp]. apply String.eqb_eq in Hmode.
+    destruct (mp_exp po) eqn:Eexp; [discriminate|]. rewrite Hmode. unfold utoa.
+    cbn [String.eqb negb andb] in Hadd |- *. destruct Hadd as (m' & ver & vep & Hadd & Hch).
+    rewrite core_unkeyed_eq.
     destruct (core_unkeyed_spec rs0 ch (pb "" (mp_data po) false (mp_score po)) (Z.to_N size) sttl nonce now_ v
                 (ch_epoch c0) (ch_top c0) (map (genc (ch_epoch c0)) g) Hviews Hmeta Hscond Htb Hszb Hsttl)
       as (st' & mh' & Hrun & Hv' & Hh' & Hfr).
     rewrite Hrun. rewrite parse_add_ok by (unfold C18Stream.BOUND in Htb; lia).
-    eexists. exists m'. eexists. split; [reflexivity|]. split; [exact Hmem|].
+    rewrite Hadd. unfold touch_exp, idem_save. cbn [mc_keyttl Z.ltb Z.compare andb String.eqb].
+    eexists. exists m'. eexists. split; [reflexivity|]. split; [reflexivity|].
     eapply (R_update U n (n + 1) rs0 m _ m' ch _ HK Hin HR0); [lia | | exact Hch | |].
     + eapply frame_trans; [exact Hfr | apply frame_clear].
     + apply (chan_rel_frame st'); [intros; apply getk_clear_outbox|].
@@ -363,12 +453,41 @@ Proof.
       split; [assumption|]. split; [lia|]. split; [apply contigT_snoc; [assumption | reflexivity]|].
       unfold state_after. cbn [String.eqb]. assumption.
   - (* keyed *)
-    cbn [String.eqb negb andb]. rewrite core_keyed_eq.
-    destruct (core_keyed_spec rs0 ch (String kc key) (pb (String kc key) (mp_data po) false (mp_score po)) (Z.to_N size) sttl nonce now_
-                (mp_delta po) v (ch_epoch c0) (ch_top c0) (map (genc (ch_epoch c0)) g) Hviews Hmeta Hscond Hwc Htb Hszb Hsttl)
-      as (st' & mh' & hs' & Hrun & Hv' & Hh' & Hep' & Hfr).
-    rewrite Hrun. rewrite parse_add_ok by (unfold C18Stream.BOUND in Htb; lia).
-    eexists. exists m'. eexists. split; [reflexivity|]. split; [exact Hmem|].
+    cbn [String.eqb] in Hkeyopts.
+    assert (Hexp : exp_ok (mp_exp po)).
+    { unfold exp_okb in Hkeyopts. unfold exp_ok. destruct (mp_exp po) as [[eo ee]|]; [|exact I].
+      apply andb_true_iff in Hkeyopts as [A B]. apply negb_true_iff in A. apply String.eqb_neq in A. apply N.ltb_lt in B. split; assumption. }
+    cbn [String.eqb negb andb] in Hadd |- *.
+    change (match mp_exp po with Some (eo, _) => utoa eo | None => "" end) with (exp_off (mp_exp po)).
+    change (match mp_exp po with Some (_, ee) => ee | None => "" end) with (exp_epoch (mp_exp po)).
+    unfold utoa at 1. rewrite core_keyed2_eq.
+    pose proof (core_keyed2_spec rs0 ch kc key (pb (String kc key) (mp_data po) false (mp_score po)) (Z.to_N size) sttl nonce now_
+                  (mp_delta po) v (ch_epoch c0) (ch_top c0) (map (genc (ch_epoch c0)) g) (ch_state c0) (mp_mode po) (mp_exp po)
+                  Hviews Hmeta Hscond Hwc Est Hents Htb Hszb Hsttl Hexp) as Hspec.
+    cbv zeta in Hspec.
+    destruct (km_decision (mp_mode po) (is_some (sfind (String kc key) (ch_state c0)))) as [r|] eqn:Ekm.
+    { (* suppressed by the key mode *)
+      destruct Hspec as (st1 & h1 & Hrun & Vm1 & Hh1 & F1).
+      rewrite Hrun, Hadd. rewrite parse_add_supp by (first [exact Htb64 | eapply km_decision_reason; eassumption]).
+      unfold touch_exp. cbn [mc_keyttl Z.ltb Z.compare andb].
+      eexists. exists m1. eexists. split; [reflexivity|]. split; [reflexivity|].
+      apply (R_after_suppress U n rs0 m st1 m1 ch nonce h1 v g); assumption. }
+    destruct (cas_dec (ch_epoch c0) (mp_exp po) (sfind (String kc key) (ch_state c0))) as [cp|] eqn:Ecas.
+    { (* position mismatch *)
+      destruct Hspec as (st1 & h1 & Hrun & Vm1 & Hh1 & F1).
+      rewrite Hrun, Hadd.
+      rewrite (parse_add_mismatch (ch_top c0) (ch_epoch c0) (String kc key) (sfind (String kc key) (ch_state c0)) Htb64 Hep).
+      2:{ destruct (sfind (String kc key) (ch_state c0)) as [e|] eqn:Ek; [|exact I]. apply (Hents (String kc key, e)). apply in_sfind. exact Ek. }
+      rewrite <- (cas_dec_cp _ _ _ _ Ecas).
+      unfold touch_exp. cbn [mc_keyttl Z.ltb Z.compare andb].
+      eexists. exists m1. eexists. split; [reflexivity|]. split; [reflexivity|].
+      apply (R_after_suppress U n rs0 m st1 m1 ch nonce h1 v g); assumption. }
+    (* accepted *)
+    destruct Hspec as (st' & mh' & hs' & Hrun & Hv' & Hh' & Hep' & Hfr).
+    destruct Hadd as (m' & ver & vep & Hadd & Hch).
+    rewrite Hrun, Hadd. rewrite parse_add_ok by (unfold C18Stream.BOUND in Htb; lia).
+    unfold touch_exp, idem_save. cbn [mc_keyttl Z.ltb Z.compare andb String.eqb].
+    eexists. exists m'. eexists. split; [reflexivity|]. split; [reflexivity|].
     set (e' := mkME (ch_top c0 + 1) (mp_data po) (mp_score po) ver vep).
     eapply (R_update U n (n + 1) rs0 m _ m' ch _ HK Hin HR0); [lia | | exact Hch | |].
     + eapply frame_trans; [exact Hfr | apply frame_clear].
